@@ -69,3 +69,46 @@ def step (st : St) (toks : List String) : St × String :=
   | _ => (st, "bad-op")
 
 end Drv.Persist
+
+namespace Drv.Crash
+open Drv.Persist
+
+structure St where
+  p : P := P.init 1 []
+
+/-- every crash image must be the flushed state before or after the operation (a flush boundary);
+    the image taken at the operation boundary must be the state after it -/
+def verdicts (before after : Store) (imgs : List String) : String :=
+  let b := showStore before
+  let a := showStore after
+  let vs := imgs.map fun img =>
+    if img.startsWith "B" then (if (img.drop 1).toString = a then "allowed" else "NOTALLOWED-boundary:" ++ img ++ "-expected:" ++ a)
+    else if img = b || img = a then "allowed" else "NOTALLOWED:" ++ img
+  " ".intercalate vs
+
+def imgsOf (toks : List String) : List String :=
+  match toks.findSome? (fun t => if t.startsWith "img=" then some (t.drop 4).toString else none) with
+  | some s => if s = "" then [] else s.splitOn ";"
+  | none => []
+
+def step (st : St) (toks : List String) : St × String :=
+  match toks with
+  | "begin" :: rest => ({ p := P.init (natOf (kvGet rest "batch")) [] }, "ok")
+  | "put" :: k :: v :: _ =>
+    match parseHex k, parseVal v with
+    | some k, some v =>
+      let p' := st.p.put k v
+      ({ p := p' }, "ok " ++ verdicts st.p.db p'.db (imgsOf toks))
+    | _, _ => (st, "bad-op")
+  | "rm" :: k :: _ =>
+    match parseHex k with
+    | some k =>
+      let p' := st.p.remove k
+      ({ p := p' }, "ok " ++ verdicts st.p.db p'.db (imgsOf toks))
+    | none => (st, "bad-op")
+  | "tick" :: _ => let p' := st.p.flush; ({ p := p' }, "ok " ++ verdicts st.p.db p'.db (imgsOf toks))
+  | "close" :: _ => let p' := st.p.flush; ({ p := p' }, "ok " ++ verdicts st.p.db p'.db (imgsOf toks))
+  | "reopen" :: _ => let p' := st.p.reopen; ({ p := p' }, "ok " ++ verdicts st.p.db p'.db (imgsOf toks))
+  | _ => (st, "bad-op")
+
+end Drv.Crash
